@@ -246,3 +246,4 @@ Example C11_example :
   | _, _ => False
   end.
 Proof. vm_compute. repeat split; discriminate. Qed.
+Print Assumptions C11_example.
